@@ -41,13 +41,16 @@ def rhs_matrix(ode, max_tries: int = 20) -> sympy.Matrix:
     intermediates = {x.symbol: x.expr for x in ode.intermediates}
     rhs = sympy.Matrix([state.expr for state in ode.sorted_state_derivatives()])
 
+    # Every pass expands at least one level of intermediates, so an acyclic model
+    # needs at most one pass per intermediate
+    max_tries = max(max_tries, len(intermediates) + 1)
     num_tries = 0
-    while (any([rhs.has(k) for k in intermediates.keys()])) and num_tries < max_tries:
+    while any([rhs.has(k) for k in intermediates.keys()]):
+        if num_tries >= max_tries:
+            raise RuntimeError("Maximum number of tries used")
         rhs = rhs.xreplace(intermediates)
         num_tries += 1
 
-    if num_tries == max_tries:
-        raise RuntimeError("Maximum number of tries used")
     return rhs
 
 
